@@ -84,7 +84,7 @@ Pool(t, f) ==
     [] <<t, f>> = <<"Query", "i">> -> {O("Obj"), O("Other"), O("Nope"), O("Query"), Nl, Er}
     [] <<t, f>> = <<"Query", "u">> -> {O("Obj"), O("Other"), O("Query"), Nl, I1}
     [] <<t, f>> \in {<<"Query", "l">>, <<"Query", "ln">>, <<"Query", "lnn">>} -> IntListPool
-    [] <<t, f>> = <<"Query", "lo">> -> {Li(<<O("Obj"), Nl>>), Li(<<O("Obj"), O("Other")>>), Li(<<Er>>), Li(<<O("Obj"), O("Obj")>>), Nl, O("Obj")}
+    [] <<t, f>> = <<"Query", "lo">> -> {Li(<<O("Obj"), Nl>>), Li(<<O("Obj"), O("Other")>>), Li(<<Er>>), Li(<<O("Obj"), O("Obj")>>), Li(<<O("Obj"), Er>>), Nl, O("Obj")}
     [] <<t, f>> = <<"Query", "ll">> -> {Li(<<Li(<<I1, <<"int", 2>>>>), Nl>>), Li(<<Li(<<I1, Nl>>), Li(<<I1>>)>>), Li(<<Li(<<I1>>), I1>>), Li(<<I1>>), Li(<<Li(<<Er>>)>>), Nl}
     [] <<t, f>> = <<"Query", "e">> -> {<<"str", "V">>, <<"str", "X">>, I1, Nl}
     [] <<t, f>> = <<"Query", "s">> -> {<<"str", "s">>, I1, Nl}
